@@ -657,3 +657,68 @@ def hist_body(cfg):
         if changed >= 2:
             nontrivial()
     return True
+
+
+EVICT = [False]
+
+
+class MR(NodeMixin):
+    """a legal re-entrant hook: before a node is attached, the new parent's first child is evicted"""
+
+    def __init__(self, i):
+        self.i = i
+
+    def _pre_attach(self, parent):
+        if EVICT[0] and parent.children:
+            parent.children[0].parent = None
+
+
+class LR(LightNodeMixin):
+    __slots__ = ("i",)
+
+    def __init__(self, i):
+        self.i = i
+
+    def _pre_attach(self, parent):
+        if EVICT[0] and parent.children:
+            parent.children[0].parent = None
+
+
+def reentrant_body(cfg):
+    """C02/C16/C18 with a tree-mutating hook: `n.parent = p` where n's _pre_attach detaches p's first child.
+    Effect per the statements: the evicted child is a root, n is the LAST child of p, nothing else changes;
+    both mixins agree."""
+    n, pv = pick_forest(cfg)
+    parent, children = model_from_pv(pv)
+    a = nondet_int(0, n - 1, "a")
+    b = nondet_int(0, n - 1, "b")
+    op = ("parent", a, b)
+    if F.refusal(parent, children, op, "light") is not None or parent[a] == b:
+        return True
+    with concrete_region():
+        out, p1, c1 = F.apply_functional(parent, children, ("parent", a, None), "light")
+        evicted = None
+        if c1[b]:
+            evicted = c1[b][0]
+            p1[evicted] = None
+            c1[b] = c1[b][1:]
+        c1[b] = c1[b] + [a]
+        p1[a] = b
+        if evicted is not None:
+            nontrivial()
+        res = {}
+        for name, cls in (("mixin", MR), ("light", LR)):
+            EVICT[0] = False
+            nodes = build_forest(cls, pv, False)
+            EVICT[0] = True
+            try:
+                exc = do_call(nodes, op)
+            finally:
+                EVICT[0] = False
+            if exc is not None:
+                return {"why": "call with a re-entrant _pre_attach hook raised", "class": name, "pv": pv, "op": op, "exc": repr(exc)}
+            got = real_map(nodes)
+            if got != (p1, c1):
+                return {"why": "effect of parent= with a hook that evicts a sibling", "class": name, "pv": pv, "op": op, "got": list(got), "exp": [p1, c1]}
+            res[name] = got
+    return True
